@@ -34,7 +34,9 @@ theorem facts_match :
     srcFacts = Expected.C20.facts ∧
     FactsC20.nodeUnstoredReturns = 0 ∧ FactsC20.edgeUnstoredReturns = 1 ∧
     FactsC20.branchUnstoredReturns = 0 ∧ FactsC20.compileReturnsStoredErrFirst = true ∧
-    FactsC20.entryExitInControlBlock = Expected.C20.entryExitInControlBlock := by
+    FactsC20.entryExitInControlBlock = Expected.C20.entryExitInControlBlock ∧
+    FactsC20.wfBranchEndsChecked = Expected.C20.wfBranchEndsChecked ∧
+    FactsC20.wfInputsReplayedInDeclaredOrder = Expected.C20.wfInputsReplayedInDeclaredOrder := by
   decide
 
 theorem srcFacts_guarded : srcFacts.Guarded := by
@@ -367,7 +369,7 @@ theorem compile_retry_same (ord : Ord) (b : Builder) (o : COpts) (k : ErrKind)
 def srcEnv (im : Impl) (ord : Ord) : Env :=
   { f := srcFacts, inCtl := FactsC20.entryExitInControlBlock, im, ord }
 
-theorem srcEnv_inCtl (im : Impl) (ord : Ord) : (srcEnv im ord).inCtl = true := facts_match.2.2.2.2.2
+theorem srcEnv_inCtl (im : Impl) (ord : Ord) : (srcEnv im ord).inCtl = true := facts_match.2.2.2.2.2.1
 
 /-- **Source fact tie (entry / exit bookkeeping).**  With the two appends where the source has
     them – inside `if !noControl { … }` – `addEdgeWithMappings` is the function of the builder
@@ -515,6 +517,21 @@ theorem workflow_compile_never_panics_partial (im : Impl) (ord : Ord) (d : WfDec
               all_goals (subst_vars; simp)
             · simp
 
+/-- **workflow_compile_deterministic_partial.**  Full statement: a declared Workflow gives the
+    same Compile outcomes on every attempt.  `Workflow.compile` replays the recorded inputs in the
+    order it visits its nodes; proved for a source that visits them in declaration order (fact
+    `wfInputsReplayedInDeclaredOrder`): then whatever order `adv` / `adv'` a Go map iteration
+    might have produced plays no role and the outcome is the function `WfDecl.lower` of the
+    declaration.  The unrepaired source ranges over the map, and the order does matter as soon as
+    a pass-through node can take its type from several edges:
+    `workflow_input_order_matters`. -/
+theorem workflow_compile_deterministic_partial (chk : Bool) (d : WfDecl)
+    (h : FactsC20.wfInputsReplayedInDeclaredOrder = true) (adv adv' : List Nat) :
+    d.lowerBy chk (replayOrder FactsC20.wfInputsReplayedInDeclaredOrder adv (d.nodes.length + 1)) =
+      d.lowerBy chk (replayOrder FactsC20.wfInputsReplayedInDeclaredOrder adv' (d.nodes.length + 1)) ∧
+    d.lowerBy chk (replayOrder FactsC20.wfInputsReplayedInDeclaredOrder adv (d.nodes.length + 1)) = d.lower chk := by
+  simp only [replayOrder, h, ↓reduceIte, lowerBy_declared, and_self]
+
 /-! ## non-vacuity and negation witnesses -/
 
 def exImpl : Impl := [(.conc 3, 0)]
@@ -609,6 +626,21 @@ example :
 theorem entry_less_workflow_accepted_when_bookkeeping_hoisted :
     (wfNoEntry.lower true).compiles (exEnv false) [copts] = [.ok] ∧
     ({ wfOk with endIns := [⟨"a", .indirect, none⟩] }.lower true).compiles (exEnv false) [copts] = [.ok] := by
+  decide
+
+/-- Workflow[c1 → c2]: pass-through `a` ← START; `b` (any → c0) ← `a`; END ← `b` (dependency),
+    END ← `a` (data only).  Which edge types `a` first decides everything: replaying `b`'s input
+    first makes `a` an `any` (all later edges are checked at run time, Compile succeeds);
+    replaying `a`'s own input first makes it a c1, and the edge into END (c2) is refused. -/
+theorem workflow_input_order_matters :
+    let d : WfDecl :=
+      { inT := .conc 1, outT := .conc 2, stateTy := none,
+        nodes := [{ key := "a", body := .plain true .any .any, ins := [⟨START, .input, none⟩] },
+                  { key := "b", body := .plain false .any (.conc 0), ins := [⟨"a", .input, none⟩] }],
+        endIns := [⟨"b", .dep, none⟩, ⟨"a", .indirect, none⟩], branches := [] }
+    Decl.first (exEnv true) (d.lowerBy true [1, 0, 2]) copts = .ok ∧
+    Decl.first (exEnv true) (d.lowerBy true [0, 1, 2]) copts = .stored .edgeMismatch ∧
+    Decl.first (exEnv true) (d.lowerBy true [2, 0, 1]) copts = .stored .edgeMismatch := by
   decide
 
 /-- `Workflow.compile` on the unrepaired source: a branch naming an end node that no
